@@ -293,6 +293,39 @@ def run_shard(rec, shard, nshards):
     rec.count("cases_run", len(range(shard, len(cases), nshards)))
     if shard == 0:
         tags(rec)
+    if shard == 1:
+        inplace_edit_then_reenumerate(rec)
+
+
+def inplace_edit_then_reenumerate(rec):
+    """library use: an item of a model is edited in place (the way the repository's own test
+    test_update_algorithm_recalculate_digest changes a digest algorithm) - afterwards every name of the enum key spaces
+    must still encode to its own code and every code must still be shown under its own name"""
+    try:
+        from suit_generator.suit.envelope import SuitEnvelopeTagged
+        from suit_generator.suit.types.keys import suit_manifest, suit_text
+        d = {"SUIT_Envelope_Tagged": {
+            "suit-authentication-wrapper": {"SuitDigest": {"suit-digest-algorithm-id": "cose-alg-sha-256"}},
+            "suit-manifest": {"suit-manifest-version": 1, "suit-manifest-sequence-number": 1,
+                              "suit-common": {"suit-components": [["M"]]},
+                              "suit-validate": [{"suit-condition-image-match": ["suit-send-record-success"]}],
+                              "suit-text": {"suit-digest-algorithm-id": "cose-alg-sha-256"}},
+            "suit-text": {"en": {"suit-text-manifest-description": "x"}}}}
+        env = SuitEnvelopeTagged.from_obj(d)
+        env.update_severable_digests()
+        env.SuitEnvelopeTagged.value.SuitEnvelope[suit_manifest].SuitManifest[suit_text].value.SuitDigest \
+            .SuitDigestRaw[0].value = "cose-alg-sha-512"
+        env.update_severable_digests()
+        env.to_cbor()
+    except Exception as e:  # noqa - the internal layout is not part of the property
+        rec.count("inplace-edit-not-possible:" + type(e).__name__)
+        return
+    rec.count("inplace-edit-done")
+    r = common.case_rng(rec.seed, ID, "inplace")
+    for case in all_cases():
+        if case[0] in ("forward", "backward") and case[1] in ("hash-alg", "cose-alg", "policy", "version-cmp"):
+            run_one(rec, case, r)
+            rec.count("cases-after-an-inplace-edit")
 
 
 def tags(rec):
